@@ -15,6 +15,8 @@ from vf.specs import ips_format
 
 PROGRAMS = {
     "low": ["*=0x008000\nstart:\nlda #K\nsta 0x2100\n.dw start\n*=0x018200\nfar:\n.db 1, 2, 3\njmp.l far\n",
+            # the define is used while the source is EXPANDED (.if condition, .for bound, := right-hand side), and a string holds a TAB
+            "*=0x008000\n.if K {\nlda #0x12\n} else {\nlda #0x34\n}\n.for i := 0, K - K + 2 {\n.db i + K\n}\ncopy := K + 1\n.db copy\n.ascii 'COL1\tCOL2'\n",
             "*=0x00FFFC\n.dl 0x123456\n.dl 0x654321\nafter:\n.dw after\n"],
     "low2": ["*=0x808000\nstart:\nlda #K\n.dl start\n*=0x818100\n.db 9\n"],
     "high": ["*=0xC00000\nstart:\nlda #K\n.dl start\n*=0xC1FFFE\n.dw 0x1234\n.dw 0x5678\n", "*=0x400010\n.db K\nhere:\n.dl here\n"],
@@ -109,7 +111,7 @@ def check_symbols():
 def gen(tier, rng):
     pts = list(itertools.product(("ips", "sfc"), ("low", "low2", "high"), (False, True)))
     for fmt, mapping, copier in pts:
-        progs = range(len(PROGRAMS[mapping])) if tier == "thorough" else [rng.randrange(len(PROGRAMS[mapping]))]
+        progs = range(len(PROGRAMS[mapping]))
         for pi in progs:
             for kstyle in (("dec", "hex", "bin") if tier == "thorough" else (rng.choice(["dec", "hex", "bin"]),)):
                 yield {"fmt": fmt, "mapping": mapping, "copier": copier, "prog": pi, "k": rng.choice([5, 0x7F, 0xFF, 0x12]), "kstyle": kstyle,
